@@ -621,6 +621,8 @@ def check_gp(ctx, case):
           ctx.count("draw: factor re-checked after update_historical_data at the same query points")
   elif via == "qei":
     fallback = check_qei(ctx, case, pred, gps, P)
+    if len(ctx.violations) == 0 or not ctx.violations[-1]["what"].startswith("C17 parallel EI"):
+      fallback = check_qei_failures(ctx, case, pred, gps, P) or fallback
   if case.get("stat"):
     stat_test(ctx, case, pred, P, S, mean, neg)
   if case.get("stat_qei") and via == "qei":
@@ -711,6 +713,73 @@ def check_qei(ctx, case, pred, gps, P):
         ctx.disagree("parallel EI value is not mean_r max(0, max_i(best - mean_i +/- (L z_r)_i)) for the observed factor", case)
         return fallback
     ctx.count("qei: value = model value with the observed factor")
+  return fallback
+
+
+def check_qei_failures(ctx, case, pred, gps, P):
+  """Parallel EI *with failure models*: per candidate set the objective model and every failure model get their own factor;
+  each must reproduce the matrix it was computed from, and that matrix must be that model's joint covariance of candidate +
+  pending points (in the order objective, failure model 0, 1, ...)."""
+  import scipy.linalg
+  from libsigopt.compute import expected_improvement as eimod
+  from libsigopt.compute.probabilistic_failures import ProbabilisticFailuresCDF, ProductOfListOfProbabilisticFailures
+  q = int(case["q"])
+  cands = numpy.array(case["cands"], dtype=float)
+  k = cands.shape[0]
+  pending = P
+  nmc = int(case.get("nmc", 8))
+  fgps = gps[: 2] if len(gps) >= 2 else [gps[0]]
+  thr = [float(numpy.median(numpy.asarray(g.points_sampled_value, dtype=float))) for g in fgps]
+  fm = ProductOfListOfProbabilisticFailures([ProbabilisticFailuresCDF(g, t) for g, t in zip(fgps, thr)])
+  try:
+    epi = eimod.ExpectedParallelImprovementWithFailures(pred, q, fm, points_being_sampled=pending.copy(), num_mc_iterations=nmc,
+                                                        num_mc_iterations_per_loop=nmc)
+  except Exception as e:  # noqa
+    ctx.count(f"qei+failures: construction raised {type(e).__name__}: skipped")
+    return False
+  n = q + pending.shape[0]
+  with NameWrap(eimod, "compute_cholesky_for_gp_sampling") as nw:
+    arg = cands[:, 0, :].copy() if q == 1 else cands.copy()
+    try:
+      vals = numpy.array(epi.evaluate_at_point_list(arg), dtype=float)
+    except Exception as e:  # noqa
+      ctx.violation(f"C17 parallel EI with failures raised {type(e).__name__} (coincident candidate/pending points)", {"case": case, "error": str(e)})
+      return False
+  if vals.shape != (k,) or not numpy.all(numpy.isfinite(vals)) or numpy.any(vals < 0):
+    ctx.violation("C17 parallel EI with failures: value not finite / negative", {"case": case, "values": vals.tolist()})
+    return False
+  models = [pred] + fgps
+  if len(nw.records) != k * len(models):
+    ctx.count("qei+failures: factor calls not observable by name: skipped")
+    return False
+  ctx.count("qei+failures: factor calls observed", len(nw.records))
+  fallback = False
+  for ridx, (before, L) in enumerate(nw.records):
+    idx, mi = divmod(ridx, len(models))
+    model = models[mi]
+    who = "objective model" if mi == 0 else f"failure model {mi - 1}"
+    if before.shape != (n, n) or L.shape != (n, n) or not numpy.all(numpy.isfinite(L)):
+      ctx.violation(f"C17 factor has wrong shape or non-finite entries (parallel EI with failures, {who})", {"case": case, "candidate": idx})
+      return fallback
+    try:
+      scipy.linalg.cholesky(before.copy(), lower=True)
+    except scipy.linalg.LinAlgError:
+      fallback = True
+    ex = exact_check(ctx, n, n, before, L)
+    tol = tolerance(ex, neg_part(before))
+    if ex["res"] > tol:
+      ctx.violation(f"C17 parallel EI with failures samples the {who} with a factor whose L L' != joint covariance of candidate and pending points",
+                    {"case": case, "candidate": idx, "model": who, "covariance": before.tolist(), "L": L.tolist(),
+                     "max_abs_residual": float(ex["res"]), "tolerance": float(tol)})
+      return fallback
+    union = numpy.concatenate((cands[idx], pending), axis=0)
+    S = numpy.array(model.compute_covariance_of_points(union.copy()), dtype=float)
+    norm = float(numpy.abs(S).max())
+    nt = numtol(gps)
+    if float(numpy.abs(before - S).max()) > nt * norm + 1e-300:
+      ctx.violation(f"C17 parallel EI with failures factors, for the {who}, a matrix that is not that model's joint covariance of candidate and pending points",
+                    {"case": case, "candidate": idx, "model": who, "difference": float(numpy.abs(before - S).max()), "allowed": nt * norm})
+      return fallback
   return fallback
 
 
